@@ -17,6 +17,8 @@ package casper
 
 //verif:property C17
 //verif:bound SupLink: n = 1..3 effective validators (quick), 4..6 (thorough); each validator slot (< n) of the carried link independently empty, the validator's genuine signature, or 64 arbitrary (forged) bytes; every unused slot (>= n) empty or 1 arbitrary byte; link source height arbitrary
+//verif:bound Federation: the Step state with sources A and R only, in which the target's parent epoch has NO tally reaching MinValidatorVoteNum (tallies 0, 1 and MinValidatorVoteNum-1), so its effective validators are the federation; federation size f = 1, 4 (quick), 2, 3 (thorough); all occupancy patterns of the f federation slots, senders = the f federation members, key 9, a non-member
+//verif:assume Federation: consensus.ActiveNetParams.FederationXpubs is set by the harness to a test federation of f keys with known private keys (keys 0..f-1; the mainnet federation keys have no known private keys for genuine signatures); mainnet parameters otherwise
 //verif:bound Step: n = 1..3 validators (quick), 4..6 (thorough); tree R -> {A -> T, B}; source any of R (grandparent), A (direct parent), B (fork sibling), X (stored checkpoint below the root, not in the tree); statuses of A, B, T, X arbitrary (T also Growing), R justified or finalized; existing link source->T with arbitrary occupancy of the n validator slots; sender = any of the n validators (genuine signature or 64 arbitrary bytes) or a non-validator key (64 arbitrary bytes)
 //verif:bound validator sets differ per epoch: the target's parent epoch has keys 0..n-1 (Order i = key i); every other checkpoint (source R of the skip link R->T, fork B, X below the root) has key 9 (Order 0) and keys n-1..1 in reverse ranking; Step senders: the n validators of the target's parent epoch, a key that is a validator nowhere, and key 9 (validator of the other epochs only); SupLink: link from the direct parent A or skip link from R
 //verif:assume the embedded "genuine" signatures are the keys' real signatures over sha3-256(source hash || target hash) built in the harness independently of verification.encodeMessage (verifAssume on the harness' own digest + XPub.Verify; checked with real ed25519 in native and validation runs)
@@ -28,6 +30,8 @@ package casper
 //verif:obligation fn=VerifC17SupLink args=4;5;6 tier=thorough mode=int secs=3000
 //verif:obligation fn=VerifC17Step args=1;2;3 validate=12 mode=int
 //verif:obligation fn=VerifC17Step args=4;5;6 tier=thorough mode=int secs=3000
+//verif:obligation fn=VerifC17Federation args=1;4 validate=12 mode=int
+//verif:obligation fn=VerifC17Federation args=2;3 tier=thorough mode=int secs=3000
 
 import (
 	"encoding/binary"
@@ -259,7 +263,30 @@ func VerifC17SupLink(n int) {
 // ---------------------------------------------------------------------------
 // (iii) one verification message against an arbitrary state
 
-func VerifC17Step(n int) {
+func VerifC17Step(n int) { verifC17Step(n, false, 4) }
+
+// VerifC17Federation: the same step in the bootstrap state where nobody in the
+// target's parent epoch reaches MinValidatorVoteNum, so that
+// EffectiveValidators() falls back to the federation: a test federation of f
+// keys (keys 0..f-1, Order = index) is installed in consensus.ActiveNetParams.
+// The target may only be justified by more than 2/3 of the FEDERATION members
+// (3 of 4; one or two of four do not suffice). Sources: A (direct parent) and R.
+func VerifC17Federation(f int) { verifC17Step(f, true, 2) }
+
+func verifC17Step(n int, federation bool, nSrc int) {
+	if federation {
+		var fed []chainkd.XPub
+		for i := 0; i < n; i++ {
+			raw, err := hex.DecodeString(verifC17Keys[i])
+			if err != nil {
+				panic(err)
+			}
+			var x chainkd.XPub
+			copy(x[:], raw)
+			fed = append(fed, x)
+		}
+		consensus.ActiveNetParams.FederationXpubs = fed
+	}
 	e0 := verifU64("rootEpoch")
 	verifAssume(e0 >= 1 && e0 < 1<<32)
 	mk := func(i uint64, epoch uint64, parent *state.Checkpoint) *state.Checkpoint {
@@ -267,6 +294,14 @@ func VerifC17Step(n int) {
 		cp := &state.Checkpoint{Height: epoch * 100, Hash: bc.Hash{V0: i, V1: 0xc17}, Parent: parent, Votes: verifC17OldVotes(n)}
 		if i == 2 {
 			cp.Votes = verifC17Votes(n)
+			if federation {
+				// nobody qualifies in the target's parent epoch: every tally is below MinValidatorVoteNum
+				cp.Votes = map[string]uint64{
+					verifC17Keys[10]: consensus.ActiveNetParams.MinValidatorVoteNum - 1,
+					verifC17Keys[9]:  1,
+					verifC17Keys[0]:  0,
+				}
+			}
 		}
 		if parent != nil {
 			cp.ParentHash = parent.Hash
@@ -294,7 +329,7 @@ func VerifC17Step(n int) {
 	c := &Casper{store: &verifC17Store{cps: all}, tree: nR, msgQueue: q}
 
 	srcs := []*state.Checkpoint{A, R, B, X}
-	srcIdx := verifChoice("source", 4)
+	srcIdx := verifChoice("source", nSrc)
 	S := srcs[srcIdx]
 
 	// earlier valid votes of the link S -> T (slots of effective validators only)
@@ -384,6 +419,9 @@ func VerifC17Step(n int) {
 		if cp == T {
 			verifAssert(T.Status == state.Justified && before[i] == state.Unjustified, "only-unjustified-becomes-justified")
 			verifAssert(3*count > 2*n, "justified-needs-supermajority")
+			if federation {
+				verifReach("VerifC17Federation:target-justified")
+			}
 			verifKnown("KF-C17-UNJUSTIFIED-SOURCE", before[verifC17Index(all, S)] == state.Unjustified)
 			sb := before[verifC17Index(all, S)]
 			verifAssert(sb == state.Justified || sb == state.Finalized, "justified-needs-justified-source")
